@@ -758,7 +758,8 @@ impl LunarDay {
     let a_month: isize = self.get_month();
     let b_month: isize = target.get_month();
     if a_month != b_month {
-      return a_month.abs() < b_month.abs();
+      // a leap month directly follows the regular month of the same number
+      return self.month.get_index_in_year() < target.get_lunar_month().get_index_in_year();
     }
     self.day < target.get_day()
   }
@@ -772,7 +773,7 @@ impl LunarDay {
     let a_month: isize = self.get_month();
     let b_month: isize = target.get_month();
     if a_month != b_month {
-      return a_month.abs() >= b_month.abs();
+      return self.month.get_index_in_year() > target.get_lunar_month().get_index_in_year();
     }
     self.day > target.get_day()
   }
